@@ -34,8 +34,13 @@ RULES = {
     "resolved strictly - by a method that only reads the value map, or by `map[v]` - never by `.get(v, v)`, a creating lookup or the "
     "output itself: an output that was not cloned (a value produced outside a view) must make the clone raise, not become an output of "
     "the clone that IS the original's value (the new graph then marks the original's value as its own output)",
+    "R9": "a copying operation copies: no class of the IR core with state that can change (a property setter, a public slot, __setitem__) "
+    "defines a copy hook - __deepcopy__, __copy__, __reduce__ / __reduce_ex__, copy() - that can return the object itself: the cloner "
+    "relies on `copy.deepcopy(value.type)` / `shape.copy()` to give the clone objects of its own, and `def __deepcopy__(self, memo): "
+    "return self` on the tensor types makes every clone share its types with the original, so `clone_value.dtype = …` re-types the "
+    "original (a functionalized pass alters its input)",
 }
-FLOORS = {"R1": 26, "R2": 30, "R3": 2, "R4": 1, "R5": 2, "R6": 1, "R7": 7, "R8": 1}
+FLOORS = {"R1": 26, "R2": 30, "R3": 2, "R4": 1, "R5": 2, "R6": 1, "R7": 7, "R8": 1, "R9": 3}
 EXPLANATION = (
     "A sharing analysis over the cloner and the clone() methods: each data flow original.field → clone is classified "
     "by the mutability of the field's declared class (computed from the source: setters, __setitem__, self-stores) "
@@ -740,8 +745,49 @@ def rule_r7(ctx):
     ctx.require(n >= 7, f"only {n} collection transfers found in the cloner")
 
 
+_R9_EXAMPLE = "class T:\n    __slots__ = ('dtype',)\n    def __deepcopy__(self, memo):\n        return self\n"
+_COPY_HOOKS = ("__deepcopy__", "__copy__", "__reduce__", "__reduce_ex__", "copy")
+
+
+def _returns_self(fn_node) -> ast.AST | None:
+    a = fn_node.args
+    first = (a.posonlyargs + a.args)[0].arg if (a.posonlyargs + a.args) else None
+    for n in ast.walk(fn_node):
+        if isinstance(n, ast.Return) and isinstance(n.value, ast.Name) and n.value.id == first:
+            return n
+    return None
+
+
+def rule_r9(ctx):
+    ex = ast.parse(_R9_EXAMPLE).body[0]
+    ctx.require(_returns_self(ex.body[1]) is not None, "R9: the built-in positive example is not recognised")
+    repo = ctx.repo
+    n = 0
+    for mn in ("onnx_ir._core", "onnx_ir._graph_containers", "onnx_ir._metadata", "onnx_ir._multi_device", "onnx_ir._linked_list", "onnx_ir._name_authority"):
+        m = repo.modules.get(mn)
+        if m is None:
+            continue
+        for k in m.classes.values():
+            mro = [c for c in repo.mro(k) if isinstance(c, ClassInfo) and not getattr(c, "external", False)]
+            is_enum = any("Enum" in norm(b) for c in mro for b in c.node.bases)
+            mutable = any("set" in p for c in mro for p in c.props.values()) or any(
+                not s_.startswith("_") for c in mro for s_ in (c.slots or ())) or any("__setitem__" in c.methods for c in mro)
+            n += 1
+            hooks = [k.methods[h] for h in _COPY_HOOKS if h in k.methods]
+            bad = next(((h, r) for h in hooks for r in [_returns_self(h.node)] if r is not None), None)
+            ok = bad is None or is_enum or not mutable
+            ctx.check("R9", f"{k.name}: {', '.join(h.name for h in hooks) or 'no copy hook (default protocol)'} yields a new object", ok, bad[0] if bad else k, bad[1] if bad else k.node,
+                      f"`{k.name}.{bad[0].name if bad else ''}` can return the object itself although instances of {k.name} can change (setter / public slot / __setitem__): what the "
+                      "cloner takes for a copy is the original's object, so editing the clone's value edits the original's",
+                      how="copy hooks (__deepcopy__, __copy__, __reduce__, __reduce_ex__, copy) of the IR core classes: no `return self`, unless the class is an enum or has no mutable state",
+                      construct=f"{k.name}.{bad[0].name if bad else ''} returns self")
+    ctx.require(n >= 20, f"only {n} classes of the IR core examined")
+
+
 def run(ctx):
     from . import c03, c18
+
+    rule_r9(ctx)
 
     c18.rule_r6(ctx, rule="R8", consequence="the clone's output IS a value of the original: renaming or re-typing it changes the original model, and the original's value is marked as a graph output of the clone")
     rule_r7(ctx)
